@@ -994,6 +994,13 @@ func genC06(prop, tier string, r *rand.Rand) *Scn {
 		return g.sc
 	}
 	g.secondRun(n, budget, n.style(1) == 'R' && !stop)
+	if g.sc.Runs == 2 && (n.PrepShape == "" || n.PrepShape == "results") && r.IntN(2) == 0 {
+		// the first run's post keeps the result list it was given; the second
+		// run's prep builds its items in that slice's storage. After post has
+		// returned the list is the caller's: the second run's results must not
+		// land in it (post would see results where its items should be)
+		g.sc.ReuseKept = true
+	}
 	return g.sc
 }
 
